@@ -106,12 +106,9 @@ ALLOW = {
     ("<grin_wallet_util::ov3::OnionV3Address as core::convert::TryFrom<&str>>::try_from", "index <alloc::vec::Vec<u8> as core::ops::index::Index<core::ops::range::Range<usize>>>::index"): "address[0..32]: BASE32 decoding of an input checked to be exactly 56 characters yields 35 bytes",
     ("<grin_wallet_util::ov3::OnionV3Address as core::convert::TryFrom<&str>>::try_from", "copy_from_slice "): "destination is the [u8; 32] field, source a constant 0..32 slice (slicing guarded separately)",
     (LW + "slatepack::types::Slatepack::try_decrypt_payload", "index <[u8] as core::ops::index::Index<core::ops::range::Range<usize>>>::index"): "result[0..32] of a 64-byte SHA-512 digest",
-    (LW + "slatepack::types::Slatepack::try_decrypt_payload", "split_off "): "argument was filtered to be <= decrypted.len() two lines above (closure guard, not visible to the dominance rule)",
     (LW + "slatepack::packer::Slatepacker::<'a>::deser_slatepack", "index <[u8] as core::ops::index::Index<core::ops::range::RangeTo<usize>>>::index"): "data[..HEADER.len()] after data.len() >= slatepack::min_size() == HEADER.len() (min_size read in armor.rs)",
     (LW + "slatepack::armor::generate_check", "index <[u8] as core::ops::index::Index<core::ops::range::Range<usize>>>::index"): "checksum[0..4] of a 32-byte SHA-256 digest",
     (LW + "slate::tx_from_slate_v4", "unwrap secp256k1zkp::Signature"): "Signature::from_raw_data over a constant 64-byte zero buffer",
-    (LW + "slate::Slate::verify_part_sigs", "unwrap &secp256k1zkp::Signature"): "inside `if p.is_complete()`, which is part_sig.is_some()",
-    (LW + "slate::Slate::part_sigs::{closure#1}", "unwrap &secp256k1zkp::Signature"): "mapped after .filter(|p| p.part_sig.is_some())",
     (LW + "slate::<impl core::convert::From<&grin_wallet_libwallet::slate::Slate> for core::option::Option<alloc::vec::Vec<grin_wallet_libwallet::slate_versions::v4::CommitsV4>>>::from", "panic panic"): "encoder side: slates held by this wallet always carry Inputs::FeaturesAndCommit (tx_from_slate_v4 and the tx builder create only that form)",
     (IMPLS + "client_utils::client::Client::send_request", "unwrap *"): "thread join / runtime mutex of the wallet's own HTTP client; independent of the reply content",
     (IMPLS + "client_utils::client::Client::send_request::{closure#0}", "unwrap *"): "runtime mutex of the wallet's own HTTP client",
@@ -124,19 +121,16 @@ ALLOW = {
     (API + "types::EncryptedBody::from_json", "unwrap ring::aead::UnboundKey"): "AES-256 key is the fixed 32-byte SecretKey",
     (API + "types::EncryptedBody::decrypt", "unwrap ring::aead::UnboundKey"): "AES-256 key is the fixed 32-byte SecretKey",
     (API + "owner::try_slatepack_sync_workflow", "unwrap util::ov3::OnionV3Address"): "TryFrom via the blanket impl over From<&SlatepackAddress>: Infallible",
-    (API + "owner::Owner::<L, C, K>::get_updater_messages", "split_off "): "index = len.saturating_sub(count) <= len",
     (API + "owner::Owner::<L, C, K>::open_wallet", "unwrap alloc::vec::Vec<u8>"): "from_hex of a constant string (doctest mode only)",
     ("<grin_wallet_libwallet::slatepack::armor::HEADER_REGEX as core::ops::deref::Deref>::deref::__static_ref_initialize", "unwrap *"): _CONSTRE,
     ("<grin_wallet_libwallet::slatepack::armor::FOOTER_REGEX as core::ops::deref::Deref>::deref::__static_ref_initialize", "unwrap *"): _CONSTRE,
     ("<grin_wallet_impls::client_utils::client::RUNTIME as core::ops::deref::Deref>::deref::__static_ref_initialize", "unwrap *"): _CONSTRE,
-    ("<grin_wallet_impls::lifecycle::default::DefaultLCProvider<'a, C, K> as grin_wallet_libwallet::types::WalletLCProvider<'a, C, K>>::wallet_inst", "unwrap *"): "second as_mut() in the Some(_) arm of a match on the same option",
 }
 
 
 
 # number of sites confirmed by reading for each allow-list entry (a further site of the same kind is reported)
 ALLOW_COUNTS = {
-    ('grin_wallet_api::owner::Owner::<L, C, K>::get_updater_messages', 'split_off '): 1,
     ('grin_wallet_api::owner::Owner::<L, C, K>::open_wallet', 'unwrap alloc::vec::Vec<u8>'): 1,
     ("<(dyn grin_wallet_api::foreign_rpc::ForeignRpc + 'static) as easy_jsonrpc_mw::Handler>::handle", 'expect serde_json::value::Value'): 5,
     ("<(dyn grin_wallet_api::foreign_rpc::ForeignRpc + 'static) as easy_jsonrpc_mw::Handler>::handle", 'panic debug_assert_eq'): 4,
@@ -146,7 +140,6 @@ ALLOW_COUNTS = {
     ('<grin_wallet_impls::adapters::http::HttpSlateSender as grin_wallet_impls::adapters::SlateSender>::send_tx', 'unwrap alloc::string::String'): 1,
     ('<grin_wallet_impls::adapters::http::HttpSlateSender as grin_wallet_impls::adapters::SlateSender>::send_tx', 'unwrap serde_json::value::Value'): 8,
     ('<grin_wallet_impls::client_utils::client::RUNTIME as core::ops::deref::Deref>::deref::__static_ref_initialize', 'unwrap tokio::runtime::Runtime'): 1,
-    ("<grin_wallet_impls::lifecycle::default::DefaultLCProvider<'a, C, K> as grin_wallet_libwallet::types::WalletLCProvider<'a, C, K>>::wallet_inst", "unwrap &mut alloc::boxed::Box<dyn lw::types::WalletBackend<'_, C, K>>"): 1,
     ('<grin_wallet_impls::tor::bridge::TorBridge as core::convert::TryFrom<grin_wallet_config::types::TorBridgeConfig>>::try_from', 'unwrap &&str'): 1,
     ('<grin_wallet_impls::tor::proxy::TorProxy as core::convert::TryFrom<grin_wallet_config::types::TorProxyConfig>>::try_from', 'unwrap alloc::vec::Vec<u16>'): 1,
     ('<grin_wallet_libwallet::slatepack::armor::FOOTER_REGEX as core::ops::deref::Deref>::deref::__static_ref_initialize', 'unwrap regex::regex::string::Regex'): 1,
@@ -167,14 +160,19 @@ ALLOW_COUNTS = {
     ('grin_wallet_impls::client_utils::client::Client::send_request', "unwrap std::sync::poison::mutex::MutexGuard<'_, tokio::runtime::Runtime>"): 1,
     ('grin_wallet_impls::client_utils::client::Client::send_request::{closure#0}', "unwrap std::sync::poison::mutex::MutexGuard<'_, tokio::runtime::Runtime>"): 1,
     ('grin_wallet_libwallet::slate::<impl core::convert::From<&grin_wallet_libwallet::slate::Slate> for core::option::Option<alloc::vec::Vec<grin_wallet_libwallet::slate_versions::v4::CommitsV4>>>::from', 'panic panic'): 1,
-    ('grin_wallet_libwallet::slate::Slate::part_sigs::{closure#1}', 'unwrap &secp256k1zkp::Signature'): 1,
-    ('grin_wallet_libwallet::slate::Slate::verify_part_sigs', 'unwrap &secp256k1zkp::Signature'): 1,
     ('grin_wallet_libwallet::slate::tx_from_slate_v4', 'unwrap secp256k1zkp::Signature'): 1,
     ('grin_wallet_libwallet::slatepack::armor::generate_check', 'index <[u8] as core::ops::index::Index<core::ops::range::Range<usize>>>::index'): 1,
     ("grin_wallet_libwallet::slatepack::packer::Slatepacker::<'a>::deser_slatepack", 'index <[u8] as core::ops::index::Index<core::ops::range::RangeTo<usize>>>::index'): 1,
     ('grin_wallet_libwallet::slatepack::types::Slatepack::try_decrypt_payload', 'index <[u8] as core::ops::index::Index<core::ops::range::Range<usize>>>::index'): 1,
-    ('grin_wallet_libwallet::slatepack::types::Slatepack::try_decrypt_payload', 'split_off '): 1,
     ('grin_wallet_util::ov3::OnionV3Address::to_ov3_str', 'assert:BoundsCheck '): 2,
+}
+
+
+# allow-list entries whose reason rests on a guard in the same function: the entry only applies while
+# that guard still dominates the site  (lhs call suffix, relation that must hold at the site, rhs)
+ALLOW_GUARDS = {
+    (LW + "slatepack::packer::Slatepacker::<'a>::deser_slatepack", "index <[u8] as core::ops::index::Index<core::ops::range::RangeTo<usize>>>::index"): ("::len", "Ge", "slatepack::armor::min_size"),
+    ("<grin_wallet_util::ov3::OnionV3Address as core::convert::TryFrom<&str>>::try_from", "index <alloc::vec::Vec<u8> as core::ops::index::Index<core::ops::range::Range<usize>>>::index"): ("::len", "Eq", 56),
 }
 
 
